@@ -72,6 +72,7 @@ var (
 	fSkewConf   = simrt.RegisterCounter("fault_conffcnt_skew")
 	fSkewTx     = simrt.RegisterCounter("fault_txdr_txch_skew")
 	fNearMax    = simrt.RegisterCounter("fault_counter_near_rollover_start")
+	cManyDev    = simrt.RegisterCounter("op_network_with_dozens_of_sessions")
 	fOneKey     = simrt.RegisterCounter("fault_single_key_mismatch")
 	fVersion    = simrt.RegisterCounter("fault_mac_version_mismatch")
 	fAhead      = simrt.RegisterCounter("fault_receiver_ahead_by_multiple_of_65536")
@@ -172,6 +173,13 @@ func build(sw *sim.World) {
 	w := &world{}
 	w.nDev = 1 + simrt.Choose(4)
 	w.faults = simrt.Choose(4) != 0
+	// now and then a network with dozens of sessions (each with its own keys):
+	// whatever the library keeps per key or per device address fills up
+	many := simrt.Choose(40) == 1
+	if many {
+		w.nDev = 24 + simrt.Choose(34)
+		simrt.Count(cManyDev)
+	}
 	r := sim.NewRand(simrt.Raw())
 	w.toNS = sim.NewMailbox()
 	w.toAir = sim.NewMailbox()
@@ -202,6 +210,9 @@ func build(sw *sim.World) {
 	for i := 0; i < w.nDev; i++ {
 		i := i
 		n := 3 + simrt.Choose(20*sim.Scale)
+		if many {
+			n = 2 + simrt.Choose(3)
+		}
 		sub := simrt.Raw()
 		sw.Spawn(fmt.Sprintf("dev%d", i), func() { device(w, i, n, sub) })
 	}
